@@ -257,6 +257,16 @@ func (idx *HNSWIndex) Add(vector VectorNode) error {
 	// ════════════════════════════════════════════════════════════════════════
 	idx.mu.Lock()
 
+	// Re-adding an id that is still soft-deleted: purge the tombstoned node
+	// first. Otherwise the new vector would stay hidden behind the old
+	// tombstone and be dropped, together with the old one, by the next Flush.
+	if id != 0 && idx.deletedNodes.Contains(id) {
+		if err := idx.flushLocked(); err != nil {
+			idx.mu.Unlock()
+			return err
+		}
+	}
+
 	// Assign ID if needed (inside lock to ensure uniqueness)
 	if id == 0 {
 		id = idx.nextID
@@ -352,6 +362,13 @@ func (idx *HNSWIndex) Remove(vector VectorNode) error {
 func (idx *HNSWIndex) Flush() error {
 	idx.mu.Lock()
 	defer idx.mu.Unlock()
+
+	return idx.flushLocked()
+}
+
+// flushLocked physically removes all soft-deleted nodes and their edges.
+// The caller must hold idx.mu for writing.
+func (idx *HNSWIndex) flushLocked() error {
 
 	// Quick exit if nothing to flush
 	deletedCount := int(idx.deletedNodes.GetCardinality())
